@@ -107,6 +107,11 @@ FAMILIES = [fam_stop_by_later_yield(), fam_rebind(), fam_rebind_norecur(), fam_n
 # programs with a hand-derived answer: what the NEXT round sees is exactly what `new` / the most recent `recur` bound, in the
 # scope where the literal was written (not the scope where `new` is called, not the previous round's scope)
 EXPECT = [
+    # `recur` only prepares the next round: the rest of the body still runs with this round's parameters and locals
+    ("recur_before_yield", "<{|i| recur(i + 1); yield i if i <= 3}>.new(1).A.p\n<{|i| k := i * 2; recur(i + 1); yield [i, k] if i < 3}>.new(0).A.p\n"
+     "it := <{|i| recur(i + 1); yield i if i <= 2}>.new(1)\n[it.next, it.next, it.try.next.err?].p\n"
+     "<{|i, j: 10| m := i + j; recur(i + 1, j: j + 1); yield m if i < 3}>.new(0).A.p\n",
+     "[1, 2, 3]\n[[0, 0], [1, 2], [2, 4]]\n[1, 2, true]\n[10, 12, 14]\n"),
     # `new` on an iterator that has already been started gives another independent iterator and leaves the receiver's progress
     # alone; `new` on the literal leaves the literal un-initialised
     ("new_on_a_started_iterator", "gen := <{|i| yield i if i < 100; recur(i + 1)}>\na := gen.new(1)\nx1 := a.next\nx2 := a.next\nb := a.new(50)\n"
@@ -247,5 +252,6 @@ def main(chk):
                        "(arr/int/...) share their Go closure across _iter copies and are outside the property." % (len(EXPECT), len(FAMILIES)))
     for i in (0, len(progs) // 2, len(progs) - 1):
         chk.sample({"program": progs[i], "expected_out": cases[i][2], "impl_out": res[i]["impl"].get("out"), "model_verdict": res[i]["verdict"]})
+    chk.cov["rule"] += " Added after seeded round 5: `new` on a started iterator, `recur` before the yield and locals used after `recur`."
     return pancore.conclude(chk, ok, broken, "Props/C14.v", res, viol, model_only, "C14",
                             "Core.Interp (Iter#new/next/_iter, recur) vs evaluator/{iternew,iternext}.go, props/iter_props.go")
